@@ -579,7 +579,6 @@ def decorator_lift_transform_cached(transform, class_fn, **trafo_kwargs):
   @functools.wraps(prewrapped_fns[0])
   def wrapped_fn(self: Module, *args, **kwargs):
     nonlocal trafo_fn
-    state = self._state.export()
 
     # increment rng counters for all rngs in scope
     with fork_rngs(self):
@@ -597,7 +596,9 @@ def decorator_lift_transform_cached(transform, class_fn, **trafo_kwargs):
         if not multi_scope:
           scopes = [scopes]
         cloned, args, kwargs = set_module_scopes(self, args, kwargs, scopes)
-        object.__setattr__(cloned, '_state', state.export())
+        # core_fn is only created once (trafo_fn is reused), so the module state
+        # must be read from the module of this call, not from a closure.
+        object.__setattr__(cloned, '_state', self._state.export())
         res = prewrapped_fn(cloned, *args, **kwargs)
         self._state.reimport(cloned._state)
         _test_transformed_return_values(
@@ -700,7 +701,6 @@ def module_class_lift_transform_cached(
     def wrapped_fn(self: Module, *args, **kwargs):
       assert self.scope is not None
       nonlocal trafo_fn
-      state = self._state.export()
 
       # increment rng counters for all rngs in scope
       with fork_rngs(self):
@@ -716,7 +716,8 @@ def module_class_lift_transform_cached(
           # we reference module_class, not self.__class__ to avoid infinite loop
           cloned = module_class(parent=None, **attrs)
           cloned, args, kwargs = set_module_scopes(cloned, args, kwargs, scopes)
-          object.__setattr__(cloned, '_state', state.export())
+          # see decorator_lift_transform_cached: core_fn outlives this call
+          object.__setattr__(cloned, '_state', self._state.export())
           res = fn(cloned, *args, **kwargs)
           self._state.reimport(cloned._state)
           _test_transformed_return_values(res, fn_name)
